@@ -166,6 +166,11 @@ func replyModel(ghostName string) stdModel {
 	}
 }
 
+// handlerOpaque: constructor-like or read-only callees that are not looked into in mode A: their
+// result is a fresh value and existing memory is unchanged.  Callees that write their receiver
+// (FilePath.Write, FileResumeData.UnmarshalBinary, SetComment) must NOT be listed here: they are
+// used through their contracts (modifies clause) or inlined, otherwise the code after them runs on
+// a zero value and whole branches become unreachable in the model.
 var handlerOpaque = map[string]bool{
 	"hotline.NewField":                                   true,
 	"hotline.NewTransaction":                             true,
@@ -183,13 +188,10 @@ var handlerOpaque = map[string]bool{
 	"(*hotline.fileWrapper).TotalSize":                   true,
 	"(*hotline.ClientConn).FileRoot":                     true,
 	"(*hotline.ClientConn).NotifyOthers":                 true,
-	"(*hotline.FilePath).Write":                          true,
-	"(*hotline.FileResumeData).UnmarshalBinary":          true,
 	"(*hotline.FileResumeData).BinaryMarshal":            true,
 	"hotline.NewFileResumeData":                          true,
 	"hotline.NewForkInfoList":                            true,
 	"(*hotline.flattenedFileObject).TransferSize":        true,
-	"(*hotline.FlatFileInformationFork).SetComment":      true,
 	"(*hotline.FlatFileInformationFork).FriendlyType":    true,
 	"(*hotline.FlatFileInformationFork).FriendlyCreator": true,
 	"(*hotline.UserFlags).IsSet":                         true,
